@@ -4,7 +4,7 @@
 # scratch worktree and runs the given checks against it. Prints one summary line at the end.
 export GOFLAGS=-mod=mod GOPROXY=off GOSUMDB=off GOTOOLCHAIN=local
 id=$1; m=$2; shift 2
-src=/tmp/seed/$id/out/$m
+src=${SEEDBASE:-/tmp/seed}/$id/out/$m
 [ -f "$src/patch.diff" ] || { echo "no patch in $src"; exit 2; }
 wt=/tmp/mutwt/seed-$id-$m.$$
 mkdir -p /tmp/mutwt
